@@ -53,7 +53,7 @@ def run(tier: str, seed: int, rep: Report, model: Model) -> dict:
                 "plus unions with non-None alternatives; distinct = distinct case; non-trivial = at least one None at an annotated position")
     cases = corpus()
     for _ in range(n):
-        base = GC.gen_case(rnd, optionals=0.6, tuples=0.4, plain=0.05)
+        base = GC.gen_case(rnd, optionals=0.6, tuples=0.4, plain=0.05, opt_tuples=0.25)
         r = rnd.random()
         if r < 0.4:
             cases.append(base)
